@@ -32,10 +32,10 @@ class WBMemSlave(Module):
     """Memory-backed Wishbone slave whose ack is `cyc & stb & go`; `go` is driven by the bench (0 latency
     possible).  While not acking it drives a recognisable garbage word on dat_r.  err_on: ack+err."""
 
-    def __init__(self, bus, depth, init_words=None, min_latency1=False):
+    def __init__(self, bus, depth, init_words=None, min_latency1=False, err_only=False):
         dw = len(bus.dat_w)
         self.go = Signal()
-        self.err = Signal()
+        self.err = Signal()          # terminate with err: together with ack (default) or INSTEAD of ack (err_only; nothing is written)
         self.bus = bus
         self.depth = depth
         self.mem = Memory(dw, depth, init=list(init_words) if init_words else None)
@@ -50,12 +50,12 @@ class WBMemSlave(Module):
             self.sync += pend.eq(bus.cyc & bus.stb & ~ack)
         self.comb += [
             ack.eq(bus.cyc & bus.stb & self.go & pend),
-            bus.ack.eq(ack),
+            bus.ack.eq(ack & ~(self.err & int(err_only))),
             bus.err.eq(ack & self.err),
             rp.adr.eq(bus.adr[:abits]),
             wp.adr.eq(bus.adr[:abits]),
             wp.dat_w.eq(bus.dat_w),
-            wp.we.eq(bus.sel & Replicate(ack & bus.we, dw // 8)),
+            wp.we.eq(bus.sel & Replicate(ack & bus.we & ~(self.err & int(err_only)), dw // 8)),
             If(ack, bus.dat_r.eq(rp.dat_r)).Else(bus.dat_r.eq(int("a5" * (dw // 8), 16))),
         ]
 
@@ -131,7 +131,7 @@ class WBMaster:
         out = []
         b = self.bus
         if self.state == "req":
-            if ack:
+            if ack or err:           # Wishbone: a cycle is terminated by ack or by err
                 self.results.append((self.i, self.start, t - 1, dat_r, err))
                 op = self.ops[self.i]
                 self.i += 1
